@@ -4,6 +4,7 @@ package main
 import (
 	"fmt"
 	"os"
+	"verif/mc/plug"
 
 	"verif/mc/checks"
 	"verif/mc/report"
@@ -39,6 +40,10 @@ func main() {
 	run := report.New(id, tier)
 	if err := fn(ctx, run); err != nil {
 		fmt.Fprintln(os.Stderr, "check error:", err)
+		os.Exit(2)
+	}
+	if f := plug.Fault.Load(); f != nil {
+		fmt.Fprintln(os.Stderr, "check error: a plugin could not be run at all:", f)
 		os.Exit(2)
 	}
 	os.Exit(run.Finish())
